@@ -89,6 +89,9 @@ mod log {
 #[cfg(not(wasm_browser))]
 pub use imp::UdpSocketState;
 
+#[cfg(all(feature = "verif", any(target_os = "linux", target_os = "android")))]
+pub use imp::verif;
+
 /// Number of UDP packets to send/receive at a time
 #[cfg(not(wasm_browser))]
 pub const BATCH_SIZE: usize = imp::BATCH_SIZE;
